@@ -17,7 +17,7 @@ CLAIM = ("Proved in Coq: the executable check that is applied to the implementat
          'to files under size rotation with every naming scheme and to stdout/stderr, line lengths around the buffer/message '
          'capacities, and the merge check is applied to the output read back in reader order. That part is testing in support of '
          'the assumption, not proof. ')
-THEOREMS = ["C03_merge_check_sound", "C03_merge_length", "C03_sync_numbers", "C03_sync_numbersdirect", "C03_sync_timestampsdirect", "C03_sync_timestamps"]
+THEOREMS = ["C03_merge_check_sound", "C03_merge_length", "C03_sync_numbers", "C03_sync_numbersdirect", "C03_sync_timestampsdirect", "C03_sync_timestamps", "C03_async_schedule_is_sequential", "C03_async_send_order_is_merge", "C03_async_numbers"]
 TRUSTED = ["assumed, stress-tested: std::sync::Mutex critical sections, crossbeam_channel FIFO order, ArrayQueue pool, "
            "io::stdout()/stderr() line locking"]
 ASSUMPTIONS = ["real thread interleavings are sampled by the OS scheduler on 16 cores, not enumerated"]
